@@ -6,8 +6,25 @@ import json, os, shutil, subprocess, sys
 V = os.path.dirname(os.path.dirname(os.path.abspath(__file__)))
 sys.path.insert(0, V)
 k = json.load(open(os.path.join(V, "known_findings.json")))
-want = set(sys.argv[1:])
+want = set(a for a in sys.argv[1:] if not a.startswith("--"))
 W = "/tmp/vfr"
+
+# ---- known (unrepaired) findings: the committed replay must still FAIL on the current tree with the recorded signature (a replay goes stale
+# silently when its target gains a choice; ./check only prints a note then)
+if not want or "--known" in sys.argv:
+    for f in k["findings"]:
+        if f["status"] != "known":
+            continue
+        code = ("import sys,json; sys.path.insert(0,%r); from vlib import runner; from vlib.registry import PROPS\n"
+                "js=[j for t in ('quick','thorough') for j in PROPS[%r]['jobs'](t) if j.target==%r and j.variant==%r]\n"
+                "b=js[0].binary(quiet=True); print(json.dumps(runner.replay_case(b, %r, case_timeout=300, include_known=[%r])))") % (V, f["property"], f["target"], f.get("variant", "flt-asan"), os.path.join(V, f["replay"]), f["id"])
+        r = subprocess.run([sys.executable, "-c", code], stdout=subprocess.PIPE, stderr=subprocess.PIPE, cwd=V)
+        try:
+            out = json.loads(r.stdout.decode().strip().splitlines()[-1])
+        except Exception:
+            out = {"status": "error", "sig": r.stderr.decode()[-300:]}
+        ok = out.get("status") == "fail" and out.get("sig") == f["signature"]
+        print(("known", f["id"], f["property"], "ok" if ok else "STALE: %s %s" % (out.get("status"), out.get("sig"))))
 res = []
 bycommit = {}
 for f in k["findings"]:
